@@ -583,15 +583,30 @@ fn main() {
         std::process::exit(tree::run_deep(&args[2], &args[3], args[4].parse().unwrap()));
     }
     std::panic::set_hook(Box::new(|_| {}));
+    // watchdog: a request that does not return within the deadline ends the process (status 86); every answered
+    // request has been flushed, so the parent knows which one it was (C01: "never … spins")
+    static STARTED: std::sync::atomic::AtomicU64 = std::sync::atomic::AtomicU64::new(0);
+    let epoch = std::time::Instant::now();
+    std::thread::spawn(move || loop {
+        std::thread::sleep(std::time::Duration::from_millis(250));
+        let st = STARTED.load(std::sync::atomic::Ordering::Relaxed);
+        if st != 0 && epoch.elapsed().as_millis() as u64 > st + 15_000 {
+            std::process::exit(86);
+        }
+    });
     let stdin = std::io::stdin();
     let stdout = std::io::stdout();
     let mut o = std::io::BufWriter::with_capacity(1 << 16, stdout.lock());
     for line in stdin.lock().lines() {
         let line = line.unwrap();
+        STARTED.store(epoch.elapsed().as_millis() as u64 + 1, std::sync::atomic::Ordering::Relaxed);
         let r = std::panic::catch_unwind(|| handle(&line));
+        STARTED.store(0, std::sync::atomic::Ordering::Relaxed);
         match r {
             Ok(s) => writeln!(o, "{s}").unwrap(),
             Err(_) => writeln!(o, "PANIC").unwrap(),
         }
+        // answered requests must be visible if the next one never returns
+        o.flush().unwrap();
     }
 }
